@@ -239,7 +239,8 @@ def gen_maverage_call(rng, tier):
 def gen_accumulate_call(rng, tier):
     xs = _xs(rng, rng.random() < 0.6)
     c = _strategy(rng, {"entry": "accumulate_call", "xs": [_enc(x) for x in xs]}, "accumulate")
-    vals = {"zero": F(0)} if c.get("strategy") == "z" else {}
+    # accumulate.z(sig, zero=v): the memory value of the 1/(1 - z**-1) filter - the running sums start at v
+    vals = {"zero": rng.choice([F(0), F(0), F(2), _dy(rng), _fr(rng)])} if c.get("strategy") == "z" else {}
     return _finish(rng, c, vals)
 
 
@@ -287,13 +288,36 @@ def gen_huge_call(rng, tier):
         return _finish(rng, c, {"hysteresis": F(abs(B)) + rng.choice([0, 1, -1]), "first_sign": F(rng.choice([0, 1, -B]))},
                        allow_float=False)
     if tool == "unwrap":
-        step = rng.choice([F(1), F(2), F(3), F(7), F(3, 2)])
-        xs, cur = [], F(B)
+        # exact inputs must come out exact (`%` on the given types, theorem rat_unwrap_exact): steps and samples with
+        # denominators that are no power of two, JUMPS (not only samples) beyond 2**53, int samples kept as ints
+        step = rng.choice([F(1), F(2), F(3), F(7), F(3, 2), F(1, 3), F(7, 3), F(22, 7), F(5, 6), F(3), F(7)])
+        ints = rng.random() < 0.4
+        if ints:
+            step = F(max(1, int(step)) + rng.choice([0, 2]))
+        big = [2 ** 60 + 1, -(2 ** 55 + 3), 10 ** 17 + 1, 2 ** 53 + 1, -(10 ** 20 + 7), 3 * 2 ** 70 + 5]
+        xs, cur = [], F(rng.choice([B, 0, 1]))
         for _ in range(n):
             xs.append(cur)
-            cur += rng.choice([small(), rng.randint(-3, 3) * step + rng.choice([F(0), step / 2, F(1, 8)]), F(13, 4), F(-7, 2)])
+            r = rng.random()
+            if r < 0.45:
+                d = F(rng.choice(big)) + (0 if ints else small())
+            elif r < 0.7:
+                d = rng.randint(-3, 3) * step + (F(rng.choice([0, 1, -1])) if ints else rng.choice([F(0), step / 2, F(1, 8), F(1, 7)]))
+            else:
+                d = F(rng.randint(-9, 9)) if ints else rng.choice([small(), F(13, 4), F(-7, 2)])
+            cur += d
         c = {"entry": "unwrap_call", "xs": [_enc(x) for x in xs]}
-        return _finish(rng, c, {"max_delta": rng.choice([step / 2, F(1), F(3)]), "step": step}, allow_float=False)
+        md = rng.choice([step / 2, F(1), F(3)])
+        c = _finish(rng, c, {"max_delta": F(int(md)) if ints else md, "step": step}, allow_float=False)
+        if "step" not in c:       # the default step is the DOUBLE 2*pi: `%` then runs in floats, where a jump beyond 2**53 is
+            c["step"] = _enc(step)  # not even representable - outside the exact regime this stream is about
+            c["shape"]["step"], c["spell"]["step"] = "kw", "frac"
+        if ints:
+            c["xs_how"] = "int"
+            for k in ("max_delta", "step"):
+                if k in c.get("spell", {}):
+                    c["spell"][k] = "int"
+        return c
     xs = [B + small() for _ in range(n)]
     c = {"entry": "accumulate_call", "xs": [_enc(x) for x in xs]}
     s = rng.choice([None, "accumulate", "itertools", "func", "pure_python"])
@@ -361,6 +385,8 @@ def exhaustive():
                 for sh in ((("omit",), ("pos",), ("kw",)) if s == "z" else ((),)):
                     add("accumulate_call", xs, {"zero": F(0)} if s == "z" else {}, sh, input=inp,
                         **dict(extra, **({"strategy": s, "via": via} if s else {})))
+                    if s == "z" and sh != ("omit",):
+                        add("accumulate_call", xs, {"zero": F(2)}, sh, input=inp, **dict(extra, strategy=s, via=via))
         for outer in ("pos", "kw", "kw_swapped", "pos_kw"):
             for sh in (("omit",), ("pos",), ("kw",)):
                 add("amdf_call", xs, {"zero": F(1, 2)}, sh, lag=1, size=2, outer=outer, input=inp, **extra)
@@ -706,6 +732,16 @@ def tally(eng, c, io):
                 xs = [_dec(j) for j in c["xs"]]
                 eng.count("clip_call_default_limit", "%s omitted: %s" % (nme, "binds" if any(
                     (x < dflt) if nme == "low" else (x > dflt) for x in xs) else "does not bind"))
+    if e in ("maverage_call", "amdf_call") or (e == "accumulate_call" and c.get("strategy") == "z"):
+        z = "omitted" if "zero" not in c else "zero=0" if _dec(c["zero"]) == 0 else "zero!=0"
+        s = c.get("strategy")
+        eng.count("call_memory_value", "%s%s:%s" % (e[:-5], "" if e == "amdf_call" else "(default)" if s is None else "." + s, z))
+    if e == "unwrap_call" and not c.get("float_twin") and "step" in c and c["step"] != "None":
+        xs = [_dec(j) for j in request(c)["xs"]]
+        if any(abs(b - a) > 2 ** 53 for a, b in zip(xs, xs[1:])):
+            eng.count("unwrap_call_exactness", "jump beyond 2**53 (%s samples)" % c.get("xs_how", "Fraction"))
+        if not _is_dy(_dec(c["step"])) or not all(_is_dy(x) for x in xs):
+            eng.count("unwrap_call_exactness", "step or samples with a non-power-of-two denominator")
     if isinstance(io.get("out"), dict):
         eng.count("impl_error", "%s:%s" % (e, io["out"]["err"]))
 
